@@ -19,12 +19,13 @@ class FakeConn(object):
     family = socket.AF_INET
     type = socket.SOCK_STREAM
 
-    def __init__(self, log):
+    def __init__(self, log, addr=None):
         self.log = log
         self.closed = False
+        self.addr = addr
 
     def send(self, data):
-        self.log.append({"a": "send", "b": list(bytearray(data))})
+        self.log.append({"a": "send", "b": list(bytearray(data)), "conns": open_connections(self.addr)})
         return len(data)
 
     def close(self):
@@ -37,6 +38,20 @@ class FakeConn(object):
 
     def shutdown(self, *a):
         pass
+
+
+def open_connections(addr):
+    """connection serials the Connection Manager holds for the peer (host, port): the real Forward Open table"""
+    from cpppo.server.enip import device
+    if addr is None:
+        return []
+    try:
+        cm = device.lookup(class_id=0x06, instance_id=1)
+    except Exception:
+        return []
+    if cm is None:
+        return []
+    return sorted(set(ufo.connection_serial for k, (ufo, uci) in list(cm.forwards.items()) if tuple(k[:2]) == tuple(addr[:2])))
 
 
 def session(script, addr=("10.0.0.1", 4000), process=None, max_polls=3):
@@ -72,7 +87,7 @@ def session(script, addr=("10.0.0.1", 4000), process=None, max_polls=3):
             log.append({"a": "proc", "i": nproc[0]})
         return inner(addr_, data=data, **kwds)
 
-    conn = FakeConn(log)
+    conn = FakeConn(log, addr)
     control = cpppo.dotdict(latency=0.0, done=False, disable=False)
     with _lock:
         saved = network.recv
@@ -85,6 +100,7 @@ def session(script, addr=("10.0.0.1", 4000), process=None, max_polls=3):
             log.append({"a": "exc", "t": type(exc).__name__})
         finally:
             network.recv = saved
+    log.append({"a": "conns-left", "n": len(open_connections(addr))})
     leftover = "%s_%d" % (addr[0].replace(".", "_"), addr[1]) in enip_main.connections
     if leftover:
         log.append({"a": "stats-left"})
